@@ -309,6 +309,100 @@ def kani_playback(h, features, tag):
     return "\n".join(keep)
 
 
+# --------------------------------------------------------------------------- native confirmation by domain enumeration
+# `kani --concrete-playback` re-runs CBMC with full trace generation; for harnesses over io::Error values that run needs
+# > 20 GB and > 10 min although the verdict itself takes ~2 min.  A harness whose symbolic inputs range over a small
+# finite domain may declare it:   /// @playback_enum u8=97; u8=98; u8=99; usize=0..2; u8=0..3; bool*4
+# (one item per kani::any() call in program order: `type[*count][=v|lo..hi|v,v,..]`, a bare type means every value of a
+# bool / 0..255 of a u8).  After CBMC has reported the harness as FAILED, the harness is then run natively through
+# kani::concrete_playback_run (the same runtime Kani's own playback tests use) over the whole product of the declared
+# values; the first assignment on which the harness panics is the replayed counterexample.  The solver's verdict stays
+# the deciding step: the enumeration is never run unless CBMC failed the harness, and if no assignment reproduces the
+# result is inconclusive (exit 2), not a violation.
+
+_SIZES = {"u8": 1, "i8": 1, "bool": 1, "u16": 2, "i16": 2, "u32": 4, "i32": 4, "char": 4, "u64": 8, "i64": 8, "usize": 8, "isize": 8}
+
+
+def parse_playback_enum(spec):
+    doms = []
+    for item in spec.split(";"):
+        item = item.strip()
+        if not item:
+            continue
+        lhs, _, rhs = item.partition("=")
+        ty, _, cnt = lhs.strip().partition("*")
+        ty = ty.strip()
+        n = int(cnt) if cnt.strip() else 1
+        size = _SIZES[ty]
+        rhs = rhs.strip()
+        if not rhs:
+            vals = [0, 1] if ty == "bool" else list(range(256)) if size == 1 else None
+            if vals is None:
+                raise ValueError("playback_enum: %s needs explicit values" % ty)
+        elif ".." in rhs:
+            lo, hi = rhs.split("..")
+            vals = list(range(int(lo), int(hi) + 1))
+        else:
+            vals = [int(x) for x in rhs.split(",")]
+        enc = [list((v % (1 << (8 * size))).to_bytes(size, "little")) for v in vals]
+        doms.extend([enc] * n)
+    return doms
+
+
+def playback_enum_test(h, doms=None):
+    """Source of a native #[test] that runs harness `h` over the product of its declared input domains."""
+    if doms is None:
+        doms = parse_playback_enum(h.meta["playback_enum"])
+    total = 1
+    for d in doms:
+        total *= len(d)
+    if total > 2000000:
+        raise ValueError("playback_enum domain of %s too large (%d)" % (h.name, total))
+    lit = "vec![%s]" % ", ".join("vec![%s]" % ", ".join("vec!%r" % (v,) for v in d) for d in doms)
+    return """
+#[test]
+fn kani_concrete_playback_enum_%(n)s() {
+    // every kani::any() of the harness, in program order, with the values it is enumerated over
+    let doms: Vec<Vec<Vec<u8>>> = %(lit)s;
+    let mut idx = vec![0usize; doms.len()];
+    let prev = std::panic::take_hook();
+    std::panic::set_hook(Box::new(|_| {}));
+    let mut found: Option<(Vec<Vec<u8>>, String)> = None;
+    let mut runs = 0u64;
+    'outer: loop {
+        let vals: Vec<Vec<u8>> = idx.iter().enumerate().map(|(i, &j)| doms[i][j].clone()).collect();
+        let v2 = vals.clone();
+        runs += 1;
+        let r = std::panic::catch_unwind(std::panic::AssertUnwindSafe(move || kani::concrete_playback_run(v2, %(n)s)));
+        if let Err(p) = r {
+            let msg = if let Some(s) = p.downcast_ref::<String>() { s.clone() }
+                      else if let Some(s) = p.downcast_ref::<&str>() { s.to_string() } else { String::from("panic") };
+            // not counterexamples: the harness read fewer / more values than supplied, or an assumption excluded the input
+            let bookkeeping = msg.contains("concrete values left over") || msg.contains("Not enough det vals")
+                || msg.contains("kani::assume");
+            if !bookkeeping {
+                found = Some((vals, msg));
+                break 'outer;
+            }
+        }
+        let mut i = doms.len();
+        loop {
+            if i == 0 { break 'outer; }
+            i -= 1;
+            idx[i] += 1;
+            if idx[i] < doms[i].len() { break; }
+            idx[i] = 0;
+        }
+    }
+    std::panic::set_hook(prev);
+    if let Some((v, m)) = found {
+        panic!("ENUM-REPRODUCED after {} native runs: concrete_vals={:?} :: {}", runs, v, m);
+    }
+    println!("ENUM-CLEAN {} native runs", runs);
+}
+""" % {"n": h.name, "lit": lit}
+
+
 def native_replay_kani(h, test_src, features):
     """Compile the concrete-playback unit test into a scratch copy of the harness crate and run it
     natively (dev profile) against /repo. Returns (reproduced: bool|None, output)."""
@@ -337,7 +431,9 @@ def native_replay_kani(h, test_src, features):
     else:
         rep = None
     shutil.rmtree(os.path.join(scratch, "target"), ignore_errors=True)
-    return rep, out[-4000:]
+    # the test's own output (stdout) first: the compiler warnings on stderr must not push it out of the tail
+    key = "\n".join(ln for ln in p.stdout.split("\n") if "ENUM-" in ln)
+    return rep, p.stderr[-1200:] + "\n" + p.stdout[-3000:] + "\n" + key[-1500:]
 
 
 # --------------------------------------------------------------------------- evidence
